@@ -1,32 +1,10 @@
 #!/usr/bin/env python3
-"""OBSERVATION (not a registered check; DESIGN 11.6): ProcessBlock's parent check and blocks.Add are not
-atomic against a revert by the headers handler.  Runs the REAL headers handler and the REAL ProcessBlock
-(harness component converge, ops process_mid_hold / process_mid_release): chain 0-1-2 stored, block 3
-(child of 2) delivered and held in its merkle validation - after the parent check, before blocks.Add -,
-a header 4 (child of 1) arrives: the handler reverts to height 1; the validation ends: block 3 is added
-at height 2 on top of block 1.  Prints the stored chain and whether it is hash-linked.
-Outside C02's quantifier (block-processing steps placed BETWEEN messages); exit status is always 0."""
+"""Prints the runs of the C02 parent-race scenarios (gen/parentrace.py, regression of /repo fix e0141dc)
+on /repo's working tree; exit 1 when a stored chain is not hash-linked.  bin/check C02 runs the same."""
 import json, os, sys
 sys.path.insert(0, os.path.join(os.path.dirname(os.path.abspath(__file__)), "..", "gen"))
-import vlib
-
-def main():
-    cfg = {"parents": [[1, 0], [2, 1], [3, 2], [4, 1]], "start": 0, "m": 2000}
-    ops = [["deliver", 0], ["check"], ["answer", 0], ["deliver", 0], ["check"],
-           ["peer_set_best", [0, 1, 2]], ["settle", 1500],
-           ["peer_set_best", [0, 1, 2, 3]], ["answer", 0], ["deliver", 0], ["answer", 0], ["deliver", 0],
-           ["process_mid_hold"],
-           ["inject_headers", [4]],
-           ["process_mid_release"]]
-    work = os.path.join(vlib.WORK, "parent_race")
-    res, _ = vlib.run_harness("converge", [{"cfg": cfg, "ops": ops}], work, tag="parent_race", timeout=120)
-    for op, o in zip(ops, res[0]):
-        # frame: code, ready, pending, start, lasthash, requested, to_request, linked, inverse, n, ids...
-        n = o[9]
-        print("%-28s code=%d linked=%d inverse=%d chain=%s payload=%s" % (json.dumps(op), o[0], o[7], o[8], o[10:10 + n], o[-1:]))
-    last = res[0][-1]
-    print("OBSERVATION parent-race: stored chain %s hash-linked after the release" % ("IS" if last[7] == 1 else "is NOT"))
-    return 0
-
-if __name__ == "__main__":
-    sys.exit(main())
+import vlib, parentrace
+r = parentrace.run(sys.argv[1] if len(sys.argv) > 1 else "quick", os.path.join(vlib.WORK, "parent_race"))
+print("\n".join(r["coverage"]["parentrace"]["runs"]))
+print("failures:", len(r["failures"]), "red:", r["red"])
+sys.exit(1 if r["failures"] or r["red"] else 0)
